@@ -232,6 +232,7 @@ type Spec struct {
 	Ctor string ` + "`json:\"ctor,omitempty\"`" + `
 	Args []any  ` + "`json:\"args,omitempty\"`" + `
 	Deps []string ` + "`json:\"deps,omitempty\"`" + ` // service ids injected after Args
+	Tags []string ` + "`json:\"tags,omitempty\"`" + ` // tags (priority 0) of an overriding service
 }
 
 type Session struct {
@@ -375,6 +376,9 @@ func runOp(c any, ctxs map[string]context.Context, op Op) (res Result) {
 				deps = append(deps, container.NewDependencyService(d))
 			}
 			s.SetConstructor(Ctors[op.Val.Ctor], deps...)
+		}
+		for _, t := range op.Val.Tags {
+			s.Tag(t, 0)
 		}
 		api.OverrideService(op.Name, s)
 		return Result{V: Node{"t": "nil"}}
